@@ -313,8 +313,10 @@ impl<W: WriteColor> SearchWorker<W> {
             )
         })?;
         let result = self.search_reader(path, &mut rdr).map_err(|err| {
+            // Keep the kind so that callers can still recognize a broken
+            // pipe, which may come from printing the search results.
             io::Error::new(
-                io::ErrorKind::Other,
+                err.kind(),
                 format!("preprocessor command failed: '{:?}': {}", cmd, err),
             )
         });
